@@ -343,3 +343,43 @@ def access_cases():
 
 
 CHECKS["SequentialRunner._generate_agents[accessible-markets]"] = (access_cases, check_access)
+
+
+# ----------------------------------------------------------------------------- class names resolve to exactly one class, including user-registered ones (C18; bounded stand-in: import machinery is outside the verifier)
+def check_find_class(case):
+    from pams.utils.class_finder import find_class
+    import pams, pams.agents, pams.events, pams.logs
+    name, extra = case["name"], case["extra"]
+
+    class UserAgent(pams.agents.Agent):
+        def submit_orders(self, markets):
+            return []
+
+    class FCNAgent(pams.agents.Agent):        # a user class that shadows a built-in name
+        def submit_orders(self, markets):
+            return []
+    pool = {"none": None, "empty": [], "user": [UserAgent], "shadow": [FCNAgent], "both": [UserAgent, FCNAgent], "twice": [UserAgent, UserAgent]}[extra]
+    builtin = {}
+    for mod in (pams, pams.agents, pams.events, pams.logs):
+        if hasattr(mod, name):
+            builtin[id(getattr(mod, name))] = getattr(mod, name)
+    cands = list(builtin.values()) + [c for c in (pool or []) if c.__name__ == name]
+    try:
+        got = find_class(name=name, optional_class_list=pool)
+    except AttributeError:
+        return None if len(cands) != 1 else f"find_class({name!r}, {extra}): exactly one class has that name but the lookup failed"
+    if len(cands) != 1:
+        return f"find_class({name!r}, {extra}): {len(cands)} classes have that name but {got} was returned"
+    if got is not cands[0]:
+        return f"find_class({name!r}, {extra}): returned {got}, the class of that name is {cands[0]}"
+    return None
+
+
+def find_class_cases():
+    for name in ("FCNAgent", "Market", "IndexMarket", "MarketMakerAgent", "ArbitrageAgent", "PriceLimitRule", "TradingHaltRule", "FundamentalPriceShock", "OrderMistakeShock", "Logger", "MarketStepPrintLogger",
+                 "UserAgent", "NoSuchClass", "HighFrequencyAgent", "MarketShareFCNAgent", "Order", "Session", "Simulator"):
+        for extra in ("none", "empty", "user", "shadow", "both", "twice"):
+            yield {"name": name, "extra": extra}
+
+
+CHECKS["find_class"] = (find_class_cases, check_find_class)
